@@ -40,6 +40,8 @@ def check(ck):
     r08_5(ck)
     r08_6(ck)
     c06.r06_3(ck)
+    r08_7(ck)
+    r08_8(ck)
 
 
 def registrations(ck, registry):
@@ -467,3 +469,78 @@ def _loop(x, stop):
             return p
         p = getattr(p, '_parent', None)
     return None
+
+
+def r08_7(ck):
+    ck.rule('R08.7', 'selecting an updater does not change the store: '
+            '_get_updater (and _get_divider) assign no attribute, so a '
+            'per-update _updater override never replaces the declared '
+            'updater; colliding updates of several ports stay separate '
+            'updates (shared with C06 R06.2)')
+    for q in ('Store._get_updater', 'Store._get_divider'):
+        f = ck.fn(q, 'core.store')
+        writes = [n for n in ast.walk(f.node)
+                  if isinstance(n, (ast.Assign, ast.AugAssign,
+                                    ast.AnnAssign, ast.NamedExpr)) and any(
+                      isinstance(t, (ast.Attribute, ast.Subscript))
+                      for t in (A.assigned_targets(n) if not isinstance(
+                          n, ast.NamedExpr) else [n.target]))]
+        writes += [c for c in A.calls_in(f.node, ('setattr',))]
+        ck.require(not writes, 'R08.7', f,
+                   writes[0] if writes else f.node.name,
+                   q + ' is a pure lookup',
+                   '%s stores into the node (%s): an updater named in one '
+                   'update would replace the declared updater for all later '
+                   'updates' % (q, A.short(writes[0], 60) if writes else ''),
+                   writes[0] if writes else None)
+    c06.r06_2(ck)
+    for o in ck.obligations:
+        if o['rule'] == 'R06.2':
+            o['rule'] = 'R08.7'
+    for v in ck.violations:
+        if v.rule == 'R06.2':
+            v.rule = 'R08.7'
+    ck.rules.pop('R06.2', None)
+
+
+# in-place by design, one reason each
+INPLACE_UPDATERS = {
+    'update_dictionary': 'dict_value is documented to operate on the '
+                         'current dictionary itself (result = current)',
+}
+
+
+def r08_8(ck, rule='R08.8'):
+    ck.rule(rule, 'the built-in updaters build a new value and leave the '
+            'current one alone (no in-place mutation of their first '
+            'parameter, nested merges only into deep copies): values that '
+            'are shared - by the set divider between daughters, or handed '
+            'out through a view - stay stable')
+    for fn in sorted(UPDATERS.values()):
+        fi = ck.fn(fn, 'core.registry')
+        p1 = A.params_of(fi.node)[0]
+        if fn in INPLACE_UPDATERS:
+            ck.ok(rule, fi, fi.node.name,
+                  'frozen exception: ' + INPLACE_UPDATERS[fn])
+            continue
+        bad = mutations_of(fi.node, p1)
+        bad += [n for n in A.walk_no_nested(fi.node)
+                if isinstance(n, ast.AugAssign) and A.is_name(n.target, p1)]
+        ck.require(not bad, rule, fi, bad[0] if bad else fi.node.name,
+                   'the current value is not modified in place',
+                   '%s modifies the current value in place (%s): an object '
+                   'that is also referenced elsewhere (the sister daughter '
+                   'after a set division, an update that aliases a viewed '
+                   'value) changes behind its back' % (
+                       fn, A.short(bad[0], 50) if bad else ''),
+                   bad[0] if bad else None)
+        for c in A.calls_in(fi.node, ('deep_merge', 'deep_merge_check',
+                                      'deep_merge_multi_update')):
+            a0 = A.arg_of(c, 0)
+            fresh = derives(fi.node, a0, lambda x: isinstance(
+                x, ast.Call) and A.call_name(x) == 'deepcopy', at=c)
+            ck.require(fresh, rule, fi, c,
+                       'a nested merge goes into a deep copy of the current '
+                       'sub-dictionary',
+                       '%s merges into %s, a sub-dictionary of the current '
+                       'value, in place' % (fn, A.unparse(a0)), c)
